@@ -476,12 +476,6 @@ def run(ctx):
     proved = False
     if not msgs:
         proved = prove(ctx, "C18", extra_targets=["Proofs/C18_tac.vo"])
-    if proved:
-        saved = ctx.cov["checker_cmd"]
-        ok_f, _f, _l = coq_build(ctx, ["Findings/C18_external_sign.vo"])
-        ctx.note("finding witness Findings/C18_external_sign.v " + ("checks: the external-angle setters give the same setup for v and -v"
-                                                                    if ok_f else "no longer checks: the defect does not reproduce in the generated model"))
-        ctx.cov["checker_cmd"] = saved
     quick = ctx.tier == "quick"
     obs = run_harness(ctx, binp, ["c18", ctx.seed, 2 if quick else 8, 6 if quick else 16])
     oracle(ctx, obs)
@@ -509,8 +503,7 @@ def run(ctx):
         "only the named field changes (all 25 paths)": "proved over the generated table (record-level frame) + measured on SPDC::as_config",
         "named field = requested value in the path's unit (all 25 paths)": "proved against the hand-pinned unit table + measured (4 decimals)",
         "THz = 1e12 cycles per second (3 paths)": "proved (stored 2 pi v 1e12 rad/s; shown as c/(v 1e12) nm) + measured — was violated before /repo c033754 (finding F8, fixed)",
-        "external angle, negative values": "REFUTED on the current source (Findings/C18_external_sign.v: the setter cannot tell v from -v) — reported as a violation with input",
-        "external angle stored as Snell-equivalent internal angle": "proved (for |v|) against the C13 Snell contract (C18_external_angle_partial: |sin e - n(th) sin th| <= optimiser residual, view shows th, read-back within r/cos M); convergence of the simplex and the read-back measured per input",
+        "external angle stored as Snell-equivalent internal angle": "both signs (the sign was lost before /repo 6fcae16, finding F17, fixed); proved against the C13 Snell contract (C18_external_angle_partial: stored sign(e) th, | |sin e| - n(sign(e) th) sin th | <= optimiser residual, view shows it); convergence of the simplex and the read-back measured per input",
         "poling period keeps its derived sign": "proved on every base (poled: apodization kept; unpoled: poling created) modulo the compute_sign oracle + measured — "
                                                 "on an unpoled base the setter did nothing before /repo 7f110fb (finding F9, fixed)",
         "unknown paths rejected": "proved (get_setter p = None <-> p not in the documented list) + measured",
